@@ -35,5 +35,7 @@ HARNESSES = [
          pre_instrument_flags=["--drop-unused-functions"],
          native=False, timeout=2400,
          cases=[dict(c, id="pre%d_%s" % (q, c["id"]), defines=dict(c["defines"], PREFIX=q))
-                for q, caps in ((0, _caps(256, 1024)), (1, _caps(64, 256))) for c in caps]),
+                for q, caps in ((0, _caps(256, 1024)),) for c in caps] +
+               # two string objects: ~170 s already at cap 64, thorough tier only
+               [dict(id="pre1_max%d" % m, defines={"W16_MAX": m, "PREFIX": 1}, tier="thorough") for m in (64, 256)]),
 ]
